@@ -1,8 +1,8 @@
 """C04 — auto poling period and auto crystal angle.
 
-S2  tools/gen/poling.py translates how optimum_poling_period / optimum_theta drive nelder_mead_1d (Gen/Poling.v); tools/gen/idler.py
+S2  tools/gen/autocalc.py translates how optimum_poling_period / optimum_theta drive nelder_mead_1d (Gen/AutoCalc.v); tools/gen/idler.py
     the mismatch and idler formulas (Gen/Idler.v).
-S3  Props/C04.v: theorems about the generic two-vertex Nelder-Mead model (Model/NM1d.v) and the wrappers (Model/Poling.v).
+S3  Props/C04.v: theorems about the generic two-vertex Nelder-Mead model (Model/NM1d.v) and the wrappers (Model/AutoCalc.v).
 S4  the SAME Gallina function instantiated at Coq's primitive binary64 floats is run by coqc (vm_compute) and compared bit for bit —
     result and the whole sequence of in-bounds evaluations — with math::nelder_mead_1d: on small cost functions evaluated inside Coq,
     and on the real runs of optimum_poling_period / optimum_theta replayed from their recorded evaluation tables.
@@ -78,8 +78,8 @@ def idler_in_window(i):
 
 
 def gen_params(ctx):
-    """numeric parameters of the two nelder_mead_1d calls as translated into Gen/Poling.v"""
-    p = os.path.join(COQ, "Gen", "Poling.v")
+    """numeric parameters of the two nelder_mead_1d calls as translated into Gen/AutoCalc.v"""
+    p = os.path.join(COQ, "Gen", "AutoCalc.v")
     if not os.path.exists(p):
         return None
     s = open(p).read()
@@ -103,7 +103,7 @@ def check_replica_params(ctx, gp):
         return
     bad = {k: (gp.get(k), v) for k, v in want.items() if gp.get(k) != v}
     if bad:
-        ctx.proof_failures.append(("Gen/Poling.v", "harness replica", f"seeds/bounds/tolerances translated from the source differ from the ones the harness replays: {bad}"))
+        ctx.proof_failures.append(("Gen/AutoCalc.v", "harness replica", f"seeds/bounds/tolerances translated from the source differ from the ones the harness replays: {bad}"))
 
 
 # ------------------------------------------------------------------------------------------------ S5 oracle
@@ -343,10 +343,10 @@ def run(ctx):
     binp = build_harness(ctx)
     if ctx.replay:
         return replay(ctx, binp)
-    msgs, spans = regen(ctx, ["poling", "idler"])
+    msgs, spans = regen(ctx, ["autocalc", "idler"])
     ctx.cov["translated_spans"] = {k: v for k, v in spans.items() if any(s in v["file"] for s in ("nelder_mead", "periodic_poling", "crystal_setup", "types.rs", "beam/mod", "delta_k"))}
     for m in msgs:
-        ctx.proof_failures.append(("Gen/Poling.v", "translator", m))
+        ctx.proof_failures.append(("Gen/AutoCalc.v", "translator", m))
     proved = (not msgs) and prove(ctx, "C04", extra_targets=["Proofs/C04_cases.vo"])
     if not msgs:
         okf, _, _ = coq_build(ctx, ["Findings/C04_findings.vo"])
